@@ -116,6 +116,15 @@ function grammarPrograms() {
     ];
     for (const [decl, n] of cyc) for (const u of uses) rec.push(`${decl} type A = ${u.replace(/%/g, n)};`);
   }
+  // indexed access with unusual numeric keys on list types, directly and through aliases / generics
+  for (const k of ["-1", "0 | -2", "1.5", "-0", "1e3", "99999999999", "-1 | 'a'", "number | -1"])
+    for (const t of ["[string, number]", "string[]", "[string, ...number[]]", "Pair", "At<Pair, %K>"]) {
+      const use = t.includes("%K") ? t.replace("%K", k) : `${t.includes(" ") || t.includes("[") ? "(" + t + ")" : t}[${k}]`;
+      rec.push(`type Pair = [string, number]; type At<T extends unknown[], K extends number> = T[K]; type A = ${use};`);
+    }
+  // semantic computations on top types and on names that sanitise alike
+  rec.push("type A = Exclude<unknown, undefined>;", "type A = Exclude<unknown, Uint8Array>;", "type A = Exclude<unknown, null>;", "type A = Exclude<any, string>;", "type A = Exclude<unknown, Date | bigint>;", "type A = Exclude<Uint8Array | string, string>;");
+  rec.push("enum E { A = 'a' } type E__A = 'x'; type Box<T> = { v: T }; type A = { p: Box<E.A>, q: Box<E__A> };", "type W<T> = { v: T }; type X_ = 1; type W_X_ = string; type A = { p: W<X_>, q: W_X_ };", "type C = D; type D = C; type A = C | { x: 'a' } | { x: 'b' };", "type C = D; type D = C; type A = { x: 'a', c: C } | { x: 'b' };");
   for (const r of rec) progs.push({ note: "recursion shape", shape: "recursion shape `" + r + "`", files: { "entry.ts": `${r}\nexport const Parsers = parse.buildParsers<{ A: A }>();\n` }, types: [r] });
   // entry-point shapes
   const entries = [
